@@ -526,6 +526,9 @@ class DigitalWaveform(Generic[TDigitalState]):
         line_data = port_to_line_data(port_data, mask, bitorder)
         if line_data.dtype != dtype:
             line_data = line_data.view(dtype)
+        if not line_data.flags.owndata:
+            # The waveform must own its buffer in order to grow when samples are appended.
+            line_data = line_data.copy()
 
         return cls(
             data=line_data,
@@ -677,6 +680,9 @@ class DigitalWaveform(Generic[TDigitalState]):
             )
             if line_data.dtype != dtype:
                 line_data = line_data.view(dtype)
+            if not line_data.flags.owndata:
+                # The waveform must own its buffer in order to grow when samples are appended.
+                line_data = line_data.copy()
 
             waveforms.append(
                 cls(
